@@ -901,6 +901,10 @@ func factStrs(fn *ssa.Function, site ssa.Instruction) map[string]bool {
 	out := map[string]bool{}
 	for _, f := range factsAt(fn, site) {
 		out[fmt.Sprintf("%s=%v", atomStr(f.cond), f.truth)] = true
+		// canonical form as well: x!="GET"=false also reads x=="GET"=true, x<1=true reads x>0=false, ...
+		if a, pos := normAtom(f.cond, nil); a != "" {
+			out[fmt.Sprintf("%s=%v", a, f.truth == pos)] = true
+		}
 		if _, isPhi := f.cond.(*ssa.Phi); isPhi && f.truth {
 			// a && b && c known true: every conjunct is known true
 			for _, g := range conjuncts(fn, f.cond, 0) {
@@ -1118,6 +1122,64 @@ func pkgGroup(li *LockInfo, roots ...*ssa.Function) []*ssa.Function {
 	}
 	for _, r := range roots {
 		visit(r, 0)
+	}
+	return out
+}
+
+// factStrsDeep: factStrs plus what a same-package predicate helper guarantees. When the site is
+// guarded by `ok` of `v, ok := helper(...)` (or by a bool-returning helper) being b, every fact
+// common to all returns of the helper that may yield b also holds at the site. The helper's facts
+// are rendered in the helper's own terms (parameters by name).
+func factStrsDeep(fn *ssa.Function, site ssa.Instruction) map[string]bool {
+	out := factStrs(fn, site)
+	for _, fc := range factsAt(fn, site) {
+		idx := 0
+		v := fc.cond
+		if ex, ok := v.(*ssa.Extract); ok {
+			idx = ex.Index
+			v = ex.Tuple
+		}
+		call, ok := v.(*ssa.Call)
+		if !ok {
+			continue
+		}
+		h := unwrapSynthetic(staticCallee(call))
+		if h == nil || h.Blocks == nil || originPkgPath(h) != originPkgPath(fn) {
+			continue
+		}
+		var common map[string]bool
+		decided := true
+		eachInstr(h, func(in ssa.Instruction) {
+			ret, ok := in.(*ssa.Return)
+			if !ok || isRecoverReturn(ret) {
+				return
+			}
+			vals := retVals(ret)
+			if idx >= len(vals) {
+				decided = false
+				return
+			}
+			if k, isC := vals[idx].(*ssa.Const); isC && k.Value != nil && k.Value.Kind() == constant.Bool {
+				if constant.BoolVal(k.Value) != fc.truth {
+					return // this return cannot be the one taken
+				}
+			}
+			fs := factStrs(h, ret)
+			if common == nil {
+				common = fs
+				return
+			}
+			for k := range common {
+				if !fs[k] {
+					delete(common, k)
+				}
+			}
+		})
+		if decided {
+			for k := range common {
+				out[k] = true
+			}
+		}
 	}
 	return out
 }
